@@ -279,6 +279,10 @@ def compare(kv, T, outcome, check_wrapped=True):
         return "model reached an untabulated slot call"
     if res.startswith("e"):
         return None if outcome[0] == "exc" else "model raises, real gives %r" % (outcome[1],)
+    if res.startswith("v") and isinstance(T.value(int(res[1:])), tuple) and T.value(int(res[1:]))[:1] == ("iter-raises",):
+        # the model's result is an iterator whose consumption raises (old-style __getitem__ iteration): listing it,
+        # which is how iterators are compared, raises on the real side too
+        return None if outcome[0] == "exc" else "model gives a failing iterator, real %r" % (outcome[1],)
     if outcome[0] != "ok":
         return "model gives %s, real raises %s" % (res, outcome[1])
     if (outcome[3] != "") != (kv["printed"] == "1"):
